@@ -165,8 +165,9 @@ inductive StepR where
   | done (st : Status) (m : MR)
   | more (m : MR) (size : Nat) (chunk : Bytes)
 
-/-- body of the `while (size != 0)` loop of `sqfs_meta_reader_read` (entered with `size ≠ 0`) -/
-def readStep (fix : Bool) (f : File) (unc : Codec) (m : MR) (size : Nat) : StepR :=
+/-- body of the `while (size != 0)` loop of `sqfs_meta_reader_read` (entered with `size ≠ 0`) below the
+position guard -/
+def readStepBody (fix : Bool) (f : File) (unc : Codec) (m : MR) (size : Nat) : StepR :=
   let r := refill fix f unc m
   if r.1 ≠ 0 then .done r.1 r.2.1                                          -- if (ret) return ret;
   else
@@ -174,6 +175,14 @@ def readStep (fix : Bool) (f : File) (unc : Codec) (m : MR) (size : Nat) : StepR
     let diff := if r.2.2 > size then size else r.2.2                       -- if (diff > size) diff = size
     if m1.offset + diff > m1.data.length then .done crashSt m1            -- memcpy source leaves m->data
     else .more { m1 with offset := m1.offset + diff } (size - diff) ((m1.data.drop m1.offset).take diff)
+
+/-- one iteration of the `while (size != 0)` loop of `sqfs_meta_reader_read`.  The code in /repo (since
+442364d, which came after the seek repair 8bf8edc) first rejects a read position beyond the loaded data:
+`if (m->offset > m->data_used) return SQFS_ERROR_OUT_OF_BOUNDS;` — modelled for `fix = true` (= the code as it
+is); `fix = false` is the code before both commits.  Under `Inv` the guard is dead (`readStep_of_le`). -/
+def readStep (fix : Bool) (f : File) (unc : Codec) (m : MR) (size : Nat) : StepR :=
+  if fix = true ∧ m.offset > m.dataUsed then .done errOutOfBounds m
+  else readStepBody fix f unc m size
 
 /-- the `while (size != 0)` loop of `sqfs_meta_reader_read`; one unit of fuel per iteration, `acc` = bytes
 delivered so far. -/
@@ -232,19 +241,5 @@ def answer (fix : Bool) (f : File) (unc : Codec) (m : MR) (b o : Nat) (ns : List
   else
     let r := answerReads fix f unc s.2 ns
     { seekSt := 0, reads := r.1, endPos := r.2 }
-
-
-/-- The cursor movements of `sqfs_xattr_reader_read_value` for an out-of-line value
-(`lib/sqfs/src/xattr/xattr_reader.c`, `read_value_hdr` + tail of `read_value`) on the key/value reader:
-`get_position` → `seek` to the referenced value → read it (`n` bytes: header and payload) → `seek` back.
-Result: status, the bytes read at the detour, the reader afterwards. -/
-def oolDetour (fix : Bool) (f : File) (unc : Codec) (m : MR) (b o n : Nat) : Status × Bytes × MR :=
-  let p := getPos m
-  let s := seek fix f unc m b o
-  if s.1 ≠ 0 then (s.1, [], s.2) else
-  let r := read fix f unc s.2 n
-  if r.1 ≠ 0 then (r.1, [], r.2.2) else
-  let s2 := seek fix f unc r.2.2 p.1 p.2
-  (s2.1, r.2.1, s2.2)
 
 end Sqfs.MetaReader
